@@ -222,7 +222,6 @@ From AgileV Require Import C19.Proofs.
 Section AgentLevel.
 Variable F : realFieldType.
 Variable lam : F.
-Hypothesis lam_gt0 : 0 < lam.
 
 (* every decision hands in a feature vector of the current size (numel) *)
 Fixpoint feats_ok (g : nat * seq (seq F)) (ops : seq (@op F)) : bool :=
@@ -237,17 +236,20 @@ elim: ops => [|o ops IH] g //= /andP [Ho Hr] Hg; apply: IH => //.
 by case: o Ho {Hr} => //= v sv; rewrite all_cat Hg /= sv.
 Qed.
 
+(* [cur_lam lam ops] is the lambda the agent holds at the end (RL-hyperparameter mutations may change it); [lam_clean]
+   says that every such change was followed by a re-initialisation, as Mutations.mutation does by running the hook *)
 Theorem agent_gram_inverse (ly : layer) (ops : seq (@op F)) (rr : bool) :
-  List.forallb no_resize ops = true -> feats_ok (layer_numel ly, [::]) ops ->
+  List.forallb no_resize ops = true -> lam_clean ops = true -> 0 < cur_lam lam ops ->
+  feats_ok (layer_numel ly, [::]) ops ->
   let n := (segment ly ops).1 in
   let vs := (segment ly ops).2 in
   let S := sig (run 0 1 +%R (@fsub F) *%R (@fdiv F) rr (init_params 0 1 (@fdiv F) lam ly) ops) in
-  [/\ mx_of n (Model.gram 0 +%R *%R lam n vs) *m mx_of n S = 1%:M,
+  [/\ mx_of n (Model.gram 0 +%R *%R (cur_lam lam ops) n vs) *m mx_of n S = 1%:M,
       (mx_of n S)^T = mx_of n S
     & forall g, size g = n -> 0 <= Model.quad 0 +%R *%R S g].
 Proof.
-move=> Hnr Hok n vs S.
-have E : S = sigma_run 0 1 +%R (@fsub F) *%R (@fdiv F) lam n vs by rewrite /S agent_sigma_is_run.
+move=> Hnr Hcl Hpos Hok n vs S.
+have E : S = sigma_run 0 1 +%R (@fsub F) *%R (@fdiv F) (cur_lam lam ops) n vs by rewrite /S agent_sigma_is_run.
 rewrite E; apply: model_gram_inverse => //.
 exact: (feats_ok_all Hok).
 Qed.
